@@ -61,6 +61,12 @@ def run_c09(c):
     if "scale" in c:
         ghe.hybrid_load.load = ghe.hybrid_load.load * c["scale"]
         ghe.hourly_extraction_ground_loads = [x * c["scale"] for x in ghe.hourly_extraction_ground_loads]
+    # the object may have been used at other heights before (the searches and the root solver do exactly that): simulate there first
+    for h0 in c.get("earlier_heights", []):
+        ghe.bhe.b.H = h0
+        ghe.simulate(method=method)
+    if c.get("earlier_heights"):
+        ghe.bhe.b.H = c.get("H", 100.0)
     mx, mn = ghe.simulate(method=method)
     n = len(captured["q"])
     nmax = c.get("steps", n)
